@@ -137,28 +137,40 @@ Section Check.
     | _ :: r => rewind_total r
     end.
 
+  Definition MAXACTS : nat := 6.
   Definition KPOT : Z := 6%Z.
   Definition RHO_MAX : Z := 60%Z.
 
+  Definition bump (x : exit) : Z := match x with XNil => 1%Z | _ => 0%Z end.
+
+  (* after the end-of-file pseudo byte nothing more is dispatched (unless the leaf
+     rewinds): the typing of the target state is not needed *)
+  Definition exempt (c : N) (acts : list act) (x : exit) : bool :=
+    (c =? 0) && (match x with XNil => true | _ => false end) && (rewind_total acts =? 0)%Z.
+
+  (* a re-dispatch handles the same byte at the same position *)
+  Definition redo_ok (acts : list act) (x : exit) (ea : est) : bool :=
+    match x with XRedo => (rewind_total acts =? 0)%Z && negb (e_read ea) | _ => true end.
+
+  Definition target_ok (st0 : state) (acts : list act) (x : exit) (ea : est) (t : state) : bool :=
+    opt_evt_eqb (lexopen ty t) (e_open ea) &&
+    (gap ty t <=? e_gap ea + bump x)%Z &&
+    (minpos ty t <=? e_pos ea + bump x)%Z &&
+    (rho ty t + KPOT * rewind_total acts + 1 <=? rho ty st0 + KPOT * bump x)%Z.
+
+  Definition ast0 (st : state) : est :=
+    {| e_open := lexopen ty st; e_gap := gap ty st; e_pos := minpos ty st; e_read := false |}.
+
   Definition leaf_ok (st0 : state) (c : N) (lf : list act * exit) : bool :=
-    let (acts, x) := lf in
-    match sfold st0 (st0, SE_none) acts,
-          efold c {| e_open := lexopen ty st0; e_gap := gap ty st0; e_pos := minpos ty st0; e_read := false |} acts with
+    match sfold st0 (st0, SE_none) (fst lf), efold c (ast0 st0) (fst lf) with
     | Some sa, Some ea =>
-      match x with
+      (List.length (fst lf) <=? MAXACTS)%nat &&
+      match snd lf with
       | XErr _ => true
-      | _ =>
-        (* after the end-of-file pseudo byte nothing more is dispatched (unless the
-           leaf rewinds): the typing of the target state is not needed *)
-        if (c =? 0) && (match x with XNil => true | _ => false end) && (rewind_total acts =? 0)%Z then true else
-        let bump := match x with XNil => 1%Z | _ => 0%Z end in
-        stack_final st0 sa &&
-        forallb (fun t =>
-                   opt_evt_eqb (lexopen ty t) (e_open ea) &&
-                   (gap ty t <=? e_gap ea + bump)%Z &&
-                   (minpos ty t <=? e_pos ea + bump)%Z &&
-                   (rho ty t + KPOT * rewind_total acts + 1 <=? rho ty st0 + KPOT * bump)%Z)
-                (targets_of st0 sa)
+      | x =>
+        exempt c (fst lf) x ||
+        (stack_final st0 sa && redo_ok (fst lf) x ea &&
+         forallb (target_ok st0 (fst lf) x ea) (targets_of st0 sa))
       end
     | _, _ => false
     end.
@@ -176,8 +188,13 @@ Section Check.
     negb (needs ty initial_state) && opt_evt_eqb (lexopen ty initial_state) None &&
     (gap ty initial_state <=? 0)%Z && (minpos ty initial_state <=? 0)%Z.
 
+  (* every ending / single event has a lexeme kind (ToLexemeType does not panic on it) *)
+  Definition events_decl_ok : bool :=
+    forallb (fun e => negb (evt_in e evt_ending || evt_in e evt_single) ||
+                      match evt_lexkind e with Some _ => true | None => false end) all_evts.
+
   Definition table_ok : bool :=
-    typing_sane && init_ok &&
+    typing_sane && init_ok && events_decl_ok &&
     forallb (fun st => forallb (state_ok st) all_byte_values) all_states.
 
   (* first offending (state, byte, leaf) for diagnosis *)
